@@ -231,6 +231,11 @@ def gen(args) -> list:
             pc = vary(rnd.choice([pa, pb]))
             if typ in ("LocalDate", "LocalDateTime", "YearMonth", "OffsetDate", "OffsetDateTime", "ZonedDateTime", "DateInterval") and rnd.random() < 0.4:
                 # three dates of one calendar year, in months chosen independently (every month order gets compared)
+                if rnd.random() < 0.35:
+                    # the calendars whose month order is not the numeric order deserve most attention
+                    heb = [i for i, cc in enumerate(g.cals) if cc.id.startswith("Hebrew")]
+                    pa = list(pa)
+                    pa[0] = rnd.choice(heb)
                 cal = g.cals[pa[0]]
                 yy = rnd.randint(max(cal.min_year + 1, 1), min(cal.max_year - 1, 9000))
                 if cal.id.startswith("Hebrew"):
@@ -238,7 +243,8 @@ def gen(args) -> list:
                 from pyoda_time import LocalDate as _LD
 
                 def in_year(p):
-                    m = rnd.randint(1, cal.get_months_in_year(yy))
+                    miy = cal.get_months_in_year(yy)
+                    m = rnd.choice([1, 6, 7, miy - 1, miy, rnd.randint(1, miy)])
                     d = rnd.randint(1, cal.get_days_in_month(yy, m))
                     out = list(p)
                     out[0] = pa[0]
